@@ -56,6 +56,11 @@ func GenQuery(r *rand.Rand, profile string, depthBonus int, pInstant float64) (g
 }
 
 func GenQueryOpt(r *rand.Rand, profile string, depthBonus int, pInstant float64, noStartEnd bool) (gen.Window, string, []store.Series, int64, int64, bool) {
+	if profile == "selector" && r.Intn(6) == 0 {
+		// selectors also live in aggregation parameters and below functions: their lookback,
+		// offset and @ handling must be the same there
+		profile = []string{"aggr", "func", "compose"}[r.Intn(3)]
+	}
 	p := gen.ProfileFor(profile)
 	p.Depth += depthBonus
 	for tries := 0; ; tries++ {
@@ -69,6 +74,11 @@ func GenQueryOpt(r *rand.Rand, profile string, depthBonus int, pInstant float64,
 			q = g.Scalar(p.Depth)
 		} else {
 			q = g.Vector(1 + r.Intn(p.Depth))
+		}
+		if profile == "selector" && r.Intn(12) == 0 {
+			// a selector read through scalar() as the parameter of an aggregation: evaluated at every
+			// step like any other, whatever its offset or @ (the plan treats parameters apart)
+			q = fmt.Sprintf([]string{"topk(scalar(%s), %s)", "quantile(scalar(%s) / 100, %s)", "bottomk(scalar(%s) + 1, %s)"}[r.Intn(3)], g.Selector(), g.Selector())
 		}
 		if _, err := parser.ParseExpr(q); err != nil {
 			if tries > 50 {
@@ -93,6 +103,10 @@ func GenQueryOpt(r *rand.Rand, profile string, depthBonus int, pInstant float64,
 			do.Extreme = true
 		case "func":
 			do.PSpecial = 0.06
+		}
+		if r.Intn(10) == 0 {
+			// special-heavy data: steps that hold NaN, +Inf, -Inf and both zeros side by side
+			do.PSpecial = 0.35
 		}
 		if do.Hist {
 			do.MaxSeries = 6
